@@ -111,6 +111,8 @@ pub enum Op {
     Status,
     /// the perft helper called with a degenerate depth (promised nothing but safety)
     Perft,
+    /// the repetition table filled by the caller (not by the search): its traps are C07's
+    History,
 }
 
 static CURRENT_OP: AtomicU32 = AtomicU32::new(0);
@@ -133,6 +135,7 @@ pub fn current_op() -> &'static str {
         10 => "plugin",
         11 => "status",
         12 => "perft",
+        13 => "history",
         _ => "harness",
     }
 }
